@@ -134,6 +134,7 @@ TABLE = [
     ('R10', 'X.read_u32::<LittleEndian>() -> vio_read_u32_le(X)', re.compile(r'\b(\w+)\.read_u32::<LittleEndian>\(\)'), r'vio_read_u32_le(\1)'),
     ('R10', 'X.read_u64::<LittleEndian>() -> vio_read_u64_le(X)', re.compile(r'\b(\w+)\.read_u64::<LittleEndian>\(\)'), r'vio_read_u64_le(\1)'),
     ('R10', 'X.read_u8() -> vio_read_u8(X)', re.compile(r'\b(\w+)\.read_u8\(\)'), r'vio_read_u8(\1)'),
+    ('R8', 'self.F.read_exact(B) -> vio_read_exact(&mut self.F, B)', re.compile(r'\b(self\.[\w.]+)\.read_exact\(([^;]*?)\)\?'), r'vio_read_exact(&mut \1, \2)?'),
     ('R8', 'X.read_exact(B) -> vio_read_exact(X, B)', re.compile(r'\b(\w+)\.read_exact\(([^;]*?)\)\?'), r'vio_read_exact(\1, \2)?'),
     ('R12', 'bincode::options()[.with_limit(L)][.with_fixint_encoding()].deserialize_from(X.take(N)) -> vbincode_deserialize_take',
      re.compile(r'bincode::options\(\)(?:\s*\.with_limit\((\w+)\))?(\s*\.with_fixint_encoding\(\))?\s*\.deserialize_from\(\s*(&mut )?(\w+)\.take\((\w+)\)\s*\)'),
